@@ -24,7 +24,7 @@ RULE += (" Widened (~35% of the ops): the shared Resolved is made with ResolveOp
          "from a document that carries 2..7 `default` keywords — under properties, nested properties, items, $defs, allOf branches — each "
          "valid against its own subschema by construction, and (known finding D19: ValidateDefaults refuses any tree with a $dynamicRef) "
          "no $dynamicRef; the goroutines start right after that Resolve, each with a burst of 4..16 back-to-back Validate passes over "
-         "all instances (harness argument burst); before that, 10..40 times per op, a FRESH Resolved made the same way is hit by the 8 "
+         "all instances (harness argument burst); before that, 8..32 times per op, a FRESH Resolved made the same way is hit by the 8 "
          "goroutines at once (harness argument freshRounds).")
 TRUSTED = ["Go race detector (sampling, not proof)"]
 PREFILTER = vjudge.prefilter
@@ -112,7 +112,7 @@ def _with_validate_defaults(rng, ops):
         o["args"]["schema"] = doc
         o["args"]["validateDefaults"] = True
         o["args"]["burst"] = rng.choice([4, 8, 16])
-        o["args"]["freshRounds"] = rng.choice([10, 20, 40])
+        o["args"]["freshRounds"] = rng.choice([8, 16, 32])
         o["args"]["insts"] = o["args"]["insts"] + [Obj([("a", "x1"), ("b", Num("1")), ("n", Obj([("m", "x")]))]), [Num("1"), "x", None]]
         o["meta"]["vd"] = True
     return ops
